@@ -608,3 +608,44 @@ type outcome =
 val subst_format : char list -> char list list -> char list
 
 val rewrite : config -> char list -> node -> outcome
+
+val hook_callee_name : node -> char list option
+
+val hook_call : node -> (char list * node list) option
+
+val is_hook : node -> bool
+
+val hook_count : node -> nat
+
+val hook_names : node -> char list list
+
+val assign_pair : node -> (char list * node) option
+
+val lookup_assign : char list -> node list -> node option
+
+val tag_of_operation : node -> node list -> bool -> char list
+
+val first_arg : node list -> node option
+
+val hook_tags_aux :
+  char list -> node list -> sp option -> node -> char list list
+
+val hook_tags : char list -> node -> char list list
+
+val hook_sites : node -> (char list * (n * n)) list
+
+val any_node : (node -> bool) -> node -> bool
+
+val kind_in : kind list -> node -> bool
+
+val instrumentable_kinds : kind list
+
+val compound_assign_target : node -> node option
+
+val k_compound_target_instrumentable : node -> bool
+
+val simple_member_target : node -> bool
+
+val k_compound_member_target : node -> bool
+
+val known_classes : node -> char list list
